@@ -2,10 +2,12 @@
    stdin and prints one observation per line in the format of that command.
 
    Case syntax (shared with harness/cmd/c18/main.go):
-     <n>[:s][:c<cap>];tok tok ...
+     <n>[:s][:c<cap>][:g][:t<n2>];tok tok ...
    header flag s = sparse (the partition is observed only at `o` tokens and at the end; without
    it the partition is observed after every token), c<cap> = capacity of the scratch buffer of
-   the buffered calls (irrelevant to the model).  Tokens:
+   the buffered calls, g = the harness fills that buffer with arbitrary values between calls
+   (both irrelevant to the model), t<n2> = a second, independent set of n2 elements; a token
+   with prefix @ goes to the second set and its items carry the prefix too.  Tokens:
      f<x> F<x>        Find / FindBuffered
      u<x>,<y> U<x>,<y> Union / UnionBuffered
      q<x>,<y> Q<x>,<y> "same set?" = Find(x) == Find(y) (second lookup on the array as
@@ -13,6 +15,7 @@
      o                item = the partition (least member of every element's class)
      v                Sets(), SmallestRep(), Roots() on the set itself, in this order (the
                       compressed array is kept), item v<sets>~<sr>~<roots>
+     s  m  r          one of the three alone, items s<sets>, m<sr>, r<roots>
    Peano indices: every model find costs at least length ds steps, so a partition snapshot is
    O(n^2) and the quadratic views are O(n^3) in the worst case; the final views are taken from
    the model's [sets]/[smallest_rep] when an estimate of that cost (from the final partition) is
@@ -28,7 +31,7 @@ type tok =
   | TFind of nat | TFindB of nat
   | TUnion of nat * nat | TUnionB of nat * nat
   | TQuery of nat * nat | TQueryB of nat * nat
-  | TObs | TViews
+  | TObs | TViews | TSets | TSmallest | TRoots
 
 let parse_tok (t : string) : tok =
   let k = t.[0] in
@@ -43,6 +46,9 @@ let parse_tok (t : string) : tok =
   | 'Q', [x; y] -> TQueryB (nat_of_int x, nat_of_int y)
   | 'o', [] -> TObs
   | 'v', [] -> TViews
+  | 's', [] -> TSets
+  | 'm', [] -> TSmallest
+  | 'r', [] -> TRoots
   | _ -> failwith ("bad token " ^ t)
 
 (* The least member of every class.  The finds are threaded (each runs on the array as
@@ -110,48 +116,74 @@ let () =
       let i = String.index line ';' in
       let hd = String.split_on_char ':' (String.sub line 0 i) in
       let n = int_of_string (List.hd hd) in
-      let sparse = List.mem "s" (List.tl hd) in
-      let toks = List.map parse_tok
+      let flags = List.tl hd in
+      let sparse = List.mem "s" flags in
+      let n2 = List.fold_left (fun acc f ->
+          if String.length f > 1 && f.[0] = 't' then Some (int_of_string (String.sub f 1 (String.length f - 1))) else acc)
+          None flags in
+      let toks = List.map (fun t ->
+          if t.[0] = '@' then (1, parse_tok (String.sub t 1 (String.length t - 1))) else (0, parse_tok t))
           (List.filter (fun s -> s <> "") (String.split_on_char ' ' (String.sub line (i + 1) (String.length line - i - 1)))) in
       let buf = Buffer.create 256 in
       let strict = Buffer.create 64 in
       let first = ref true in
-      let item s = if !first then first := false else Buffer.add_char buf '|'; Buffer.add_string buf s in
-      let ds = ref (new0 (nat_of_int n)) in
+      let item obj s =
+        if !first then first := false else Buffer.add_char buf '|';
+        if obj = 1 then Buffer.add_char buf '@';
+        Buffer.add_string buf s in
+      (* the objects are independent values: the model has no state outside them *)
+      let dss = match n2 with
+        | None -> [| new0 (nat_of_int n) |]
+        | Some m -> [| new0 (nat_of_int n); new0 (nat_of_int m) |] in
       let ex = function Some x -> x | None -> raise Panic in
-      let snapshot () = item (ints (Array.to_list (ex (labels !ds)))) in
       try
-        List.iter (fun t ->
-            (match t with
-             | TFind x | TFindB x ->
-               let (d, r) = ex (find !ds x) in
-               ds := d; Buffer.add_string strict (string_of_int (int_of_nat r) ^ " ")
-             | TUnion (x, y) | TUnionB (x, y) -> ds := ex (union !ds x y)
-             | TQuery (x, y) | TQueryB (x, y) ->
-               let (d1, rx) = ex (find !ds x) in
-               let (d2, ry) = ex (find d1 y) in
-               ds := d2; item (if int_of_nat rx = int_of_nat ry then "q1" else "q0")
-             | TObs -> snapshot ()
-             | TViews ->
-               let (d2, ss, sr) = ex (model_views !ds) in
-               ds := d2;
-               let lab = ex (labels d2) in
-               item ("v" ^ sets_str ss ^ "~" ^ ints sr ^ "~" ^ ints (roots_labels lab d2)));
-            if not sparse && t <> TObs then snapshot ()) toks;
-        let lab = ex (labels !ds) in
-        let (ss, sr, rl) =
-          if views_cost lab <= view_budget then begin
-            (* each view on its own copy of the final array, as the harness does *)
-            let (_, ss) = ex (sets !ds) in
-            let (_, sr) = ex (smallest_rep !ds) in
-            (List.map (List.map int_of_nat) ss, List.map int_of_nat sr, roots_labels lab !ds)
-          end else begin
-            let (ss, sr, _) = views_of_labels lab in
-            (ss, sr, roots_labels lab !ds)
-          end in
-        Printf.printf "%s;sets=%s;sr=%s;roots=%s ## %s finds=%s\n" (Buffer.contents buf)
-          (sets_str ss) (ints sr) (ints rl)
-          (ints (List.map int_of_z !ds)) (String.trim (Buffer.contents strict))
+        List.iter (fun (obj, t) ->
+            if obj < Array.length dss then begin
+              let ds = dss.(obj) in
+              let set d = dss.(obj) <- d in
+              let snapshot () = item obj (ints (Array.to_list (ex (labels dss.(obj))))) in
+              (match t with
+               | TFind x | TFindB x ->
+                 let (d, r) = ex (find ds x) in
+                 set d; Buffer.add_string strict (string_of_int (int_of_nat r) ^ " ")
+               | TUnion (x, y) | TUnionB (x, y) -> set (ex (union ds x y))
+               | TQuery (x, y) | TQueryB (x, y) ->
+                 let (d1, rx) = ex (find ds x) in
+                 let (d2, ry) = ex (find d1 y) in
+                 set d2; item obj (if int_of_nat rx = int_of_nat ry then "q1" else "q0")
+               | TObs -> snapshot ()
+               | TSets ->
+                 let (d1, ss) = ex (sets ds) in
+                 set d1; item obj ("s" ^ sets_str (List.map (List.map int_of_nat) ss))
+               | TSmallest ->
+                 let (d1, sr) = ex (smallest_rep ds) in
+                 set d1; item obj ("m" ^ ints (List.map int_of_nat sr))
+               | TRoots ->
+                 item obj ("r" ^ ints (roots_labels (ex (labels ds)) ds))
+               | TViews ->
+                 let (d2, ss, sr) = ex (model_views ds) in
+                 set d2;
+                 let lab = ex (labels d2) in
+                 item obj ("v" ^ sets_str ss ^ "~" ^ ints sr ^ "~" ^ ints (roots_labels lab d2)));
+              if not sparse && t <> TObs then snapshot ()
+            end) toks;
+        Array.iteri (fun obj ds ->
+            let lab = ex (labels ds) in
+            let (ss, sr, rl) =
+              if views_cost lab <= view_budget then begin
+                (* each view on its own copy of the final array, as the harness does *)
+                let (_, ss) = ex (sets ds) in
+                let (_, sr) = ex (smallest_rep ds) in
+                (List.map (List.map int_of_nat) ss, List.map int_of_nat sr, roots_labels lab ds)
+              end else begin
+                let (ss, sr, _) = views_of_labels lab in
+                (ss, sr, roots_labels lab ds)
+              end in
+            let pre = if obj = 1 then "@" else "" in
+            Buffer.add_string buf (Printf.sprintf ";%ssets=%s;%ssr=%s;%sroots=%s" pre (sets_str ss) pre (ints sr) pre (ints rl))) dss;
+        Printf.printf "%s ## %s finds=%s\n" (Buffer.contents buf)
+          (String.concat " @ " (Array.to_list (Array.map (fun ds -> ints (List.map int_of_z ds)) dss)))
+          (String.trim (Buffer.contents strict))
       with Panic -> print_endline "panic"
     done
   with End_of_file -> ()
